@@ -29,6 +29,7 @@ class Sim:
         self.domain = DOMAIN
         self.password = b"secret"
         self.tun_net = "10.9.0.1/24"
+        self.fdmode = None          # None | "desc" | "high": how the simulated OS numbers the descriptors it hands out
 
     def close(self):
         self.k.shutdown()
@@ -57,12 +58,17 @@ class Sim:
         elif self.password and b"\0" not in self.password:
             argv += ["-P", self.password]
         argv += [self.tun_net, self.domain]
+        if self.fdmode:
+            env = dict(env, SIMNET_FDMODE=self.fdmode)
         return self.k.spawn(name, "server", argv, list(ips), env=env, san_env=self.env, stdin_data=stdin_data, stdin_closed=stdin_closed)
 
     def client(self, name, ip, nameserver, opts=(), password=None, domain=None):
         pw = self.password if password is None else password
         argv = self.wrap + [self.cli_bin, "-f"] + list(opts) + ["-P", pw, nameserver, domain or self.domain]
-        return self.k.spawn(name, "client", argv, [ip], env={"IODINE_PASS": ""}, san_env=self.env)
+        env = {"IODINE_PASS": ""}
+        if self.fdmode:
+            env["SIMNET_FDMODE"] = self.fdmode
+        return self.k.spawn(name, "client", argv, [ip], env=env, san_env=self.env)
 
     def fault_relay(self, profile, ip=RELAY_IP, seed=0):
         import random
